@@ -95,7 +95,7 @@ PROPS = {
 
 # engines contributed by separately developed simulators
 import importlib, os, sys
-for _m in ("engines_kernsim", "engines_reload", "engines_dns") + tuple(x for x in os.environ.get("VERIF_EXTRA_ENGINES", "").split(",") if x):
+for _m in ("engines_kernsim", "engines_reload", "engines_dns", "engines_udpflow") + tuple(x for x in os.environ.get("VERIF_EXTRA_ENGINES", "").split(",") if x):
     if os.path.exists(os.path.join(os.path.dirname(os.path.abspath(__file__)), _m + ".py")):
         _mod = importlib.import_module(_m)
         ENGINES.update(getattr(_mod, "ENGINES", {}))
